@@ -260,6 +260,7 @@ def R(k00: int, k01: int, k02: int, k03: int, k10: int, k11: int, k12: int, k13:
     if r is None:
         return True  # stack outside Inv
     reach()
+    P_.sample({"universe": uni, "containers": n, "kinds_per_container": kinds, "obligation": "R"})
     return r
 
 
@@ -385,6 +386,7 @@ def W(k00: int, k01: int, k02: int, k03: int, k10: int, k11: int, k12: int, k13:
     if r is None:
         return True
     reach()
+    P_.sample({"universe": uni, "containers": n, "kinds_per_container": kinds, "op": op, "p": p, "q": q, "obligation": "W"})
     return r
 
 
